@@ -332,13 +332,17 @@ fn type_items_empty_rule(cx: &Cx, rep: &mut Report) {
     }
 }
 
-pub fn c04(cx: &Cx) -> i32 {
+pub fn c04_report(cx: &Cx) -> Report {
     let mut rep = cx.report("C04");
     run_bounds(cx, &mut rep, &["ES-bounds-trace", "ES-default-after-stop"]);
     crate::misc::bound_parse_rule(cx, &mut rep);
     crate::misc::bound_syntax_rule(cx, &mut rep);
     crate::misc::wcb_rule(cx, &mut rep);
     type_items_empty_rule(cx, &mut rep);
+    rep
+}
+pub fn c04(cx: &Cx) -> i32 {
+    let mut rep = c04_report(cx);
     rep.assumptions = vec![
         "the type-level helper-attribute set carries no derive_ex entries (it is built with derive_ex = false; those entries are the derive entries themselves)".into(),
         "whether an ignored / unused field reaches its field-level bound(...) is not documented and not judged".into(),
